@@ -378,7 +378,7 @@ theorem siteStepWith_sem (cover : Ptn.Bip.BGraph → Except Err (List Nat × Lis
     exact rem_all _ _ _ hI r (o :: b)
   · intro h' hh'
     obtain ⟨v, hv', ho, _⟩ := h3.src h' hh'
-    obtain ⟨_, _, hc, hc1, o, hc2⟩ := hI.vsrc v hv'
+    obtain ⟨_, _, hc, hc1, o, _, hc2, _⟩ := hI.vsrc v hv'
     exact ⟨hc.1, (of_mem_zip (a := hc.1) (b := hc.2) hc1).1, o, by rw [hc2, ho]⟩
 
 theorem siteStep_sem (s s' : ChState κ) (h : siteStep s = .ok s') (hS : SInv s) :
